@@ -703,7 +703,16 @@ func c03Exec(in c03Input) {
 		var b bytes.Buffer
 		_ = ggql.WriteJSONValue(&b, res, r.Intn(3)-1)
 	case "resolve-unbound":
-		root := ggql.NewRoot(&c03USchema{Query: c03UnboundData(r)})
+		var rootObj interface{} = &c03USchema{Query: c03UnboundData(r)}
+		switch r.Intn(12) {
+		case 0:
+			rootObj = nil // a root made for its schema only (NewRoot(nil)) that is asked to resolve all the same
+		case 1:
+			rootObj = (*c03USchema)(nil)
+		case 2:
+			rootObj = &c03USchema{}
+		}
+		root := ggql.NewRoot(rootObj)
 		if err := root.ParseString(c03UnboundSDL); err != nil {
 			panic(err)
 		}
@@ -712,6 +721,11 @@ func c03Exec(in c03Input) {
 		}
 		c03SetBudget(len(in.Text))
 		res := root.ResolveString(in.Text, in.Op, in.Vars)
+		if r.Intn(2) == 0 {
+			// and once more: whatever the first request ran into must not be in the way of the next one
+			c03SetBudget(len(in.Text))
+			res = root.ResolveString(in.Text, in.Op, in.Vars)
+		}
 		c03Budget, c03YieldBudget = 0, 0
 		var b bytes.Buffer
 		_ = ggql.WriteJSONValue(&b, res, r.Intn(3)-1)
